@@ -7,6 +7,7 @@ import FeatModel.Lemmas.C10Local2Dc
 import FeatModel.Lemmas.C10Sampler
 import FeatModel.Lemmas.C10Boundary
 import FeatModel.Lemmas.C10Volume
+import FeatModel.Lemmas.C10HexOrient
 import FeatModel.Lemmas.C10Keys
 import FeatModel.Lemmas.C10Lift2Dg
 import FeatModel.Lemmas.C10BoundaryPart
@@ -296,7 +297,7 @@ theorem C10.volume_orientation_tetrahedron (a0 a1 a2 b0 b1 b2 c0 c1 c2 d0 d1 d2 
 /-- the eight children of a TRILINEAR hexahedron with arbitrary rational vertex coordinates have volumes summing to
     the parent's volume: polynomial identity in the 24 coordinates for the exact volume `∫ det J`
     (`hexVol12`, Grandy's formula; the check compares it on every run with the exact tensor-Simpson integral of the
-    Jacobian determinant that the oracle uses).  Orientation of hexahedral children: oracle only. -/
+    Jacobian determinant that the oracle uses, and `C10.hexVol12_is_integral_of_jacobian` proves that equality). -/
 theorem C10.volume_hexahedron (a0 a1 a2 b0 b1 b2 c0 c1 c2 d0 d1 d2 e0 e1 e2 f0 f1 f2 g0 g1 g2 h0 h1 h2 : Rat) :
     (((refine (hexMesh [[a0, a1, a2], [b0, b1, b2], [c0, c1, c2], [d0, d1, d2], [e0, e1, e2], [f0, f1, f2],
         [g0, g1, g2], [h0, h1, h2]])).idx 3 0).map
@@ -305,6 +306,29 @@ theorem C10.volume_hexahedron (a0 a1 a2 b0 b1 b2 c0 c1 c2 d0 d1 d2 e0 e1 e2 f0 f
     = hexVol12 (hexMesh [[a0, a1, a2], [b0, b1, b2], [c0, c1, c2], [d0, d1, d2], [e0, e1, e2], [f0, f1, f2],
         [g0, g1, g2], [h0, h1, h2]]) [0, 1, 2, 3, 4, 5, 6, 7] :=
   hex_children_volume a0 a1 a2 b0 b1 b2 c0 c1 c2 d0 d1 d2 e0 e1 e2 f0 f1 f2 g0 g1 g2 h0 h1 h2
+
+/-- `hexVol12` (Grandy's closed form) equals twelve times the tensor-product Simpson rule (nodes 0, 1/2, 1) applied
+    to the Jacobian determinant `hexJacAt` of the trilinear map, for every mesh and vertex tuple — an identity in the
+    24 coordinates.  That rule integrates `det J` exactly because `det J` has degree ≤ 2 in each reference coordinate
+    (this degree bound is the only step NOT proved in Lean). -/
+theorem C10.hexVol12_is_integral_of_jacobian (M : Mesh) (t : List Nat) : hexVol12 M t = hexVolSimpson12 M t :=
+  hexVol12_eq_simpson M t
+
+/-- orientation of the children of a trilinear hexahedron with arbitrary rational vertex coordinates: the Jacobian
+    determinant of child `r` at its corner `k` is 1/8 of the parent's at the grid point `((r+k)/2)` (64 polynomial
+    identities), hence: positive `det J` on the parent's 3×3×3 grid {0,1/2,1}³ implies positive `det J` at all eight
+    corners of all eight children.  (Positivity at the 8 parent corners alone does not suffice for a trilinear map.) -/
+theorem C10.orientation_hexahedron
+    (a0 a1 a2 b0 b1 b2 c0 c1 c2 d0 d1 d2 e0 e1 e2 f0 f1 f2 g0 g1 g2 h0 h1 h2 : Rat)
+    (hpos : ∀ x ∈ [(0 : Rat), 1/2, 1], ∀ y ∈ [(0 : Rat), 1/2, 1], ∀ z ∈ [(0 : Rat), 1/2, 1],
+      0 < hexJacAt (hexMesh [[a0, a1, a2], [b0, b1, b2], [c0, c1, c2], [d0, d1, d2], [e0, e1, e2], [f0, f1, f2],
+        [g0, g1, g2], [h0, h1, h2]]) [0, 1, 2, 3, 4, 5, 6, 7] x y z) :
+    ∀ r < 8, ∀ k < 8,
+      0 < hexJacAt (refine (hexMesh [[a0, a1, a2], [b0, b1, b2], [c0, c1, c2], [d0, d1, d2], [e0, e1, e2],
+          [f0, f1, f2], [g0, g1, g2], [h0, h1, h2]]))
+        (((refine (hexMesh [[a0, a1, a2], [b0, b1, b2], [c0, c1, c2], [d0, d1, d2], [e0, e1, e2], [f0, f1, f2],
+          [g0, g1, g2], [h0, h1, h2]])).idx 3 0).getD r []) (bitR k 0) (bitR k 1) (bitR k 2) :=
+  hex_children_orientation a0 a1 a2 b0 b1 b2 c0 c1 c2 d0 d1 d2 e0 e1 e2 f0 f1 f2 g0 g1 g2 h0 h1 h2 hpos
 
 /-! ## orientation codes (specification of the hand-transcribed `CongruencySampler::compare`, any vertex numbers) -/
 
